@@ -1,0 +1,61 @@
+//go:build verif
+
+// Contracts for the deductive verifier in /verif (comment-only; compiled only with -tags verif).
+
+package client
+
+//@ func (*TemporalLogClient).IndexByDate
+//@ props C18
+//@ arith int
+//@ pure
+//@ requires tlc != nil
+//@ loop 1 invariant forall j int :: 0 <= j && j <= rangeindex ==> !inside(tlc.intervals[j].lower, tlc.intervals[j].upper, when)
+//@ ensures [routes-to-the-first-shard-whose-window-contains-the-instant] result1 == nil ==> 0 <= result0 && result0 < len(tlc.intervals) && inside(tlc.intervals[result0].lower, tlc.intervals[result0].upper, when) && (forall j int :: 0 <= j && j < result0 ==> !inside(tlc.intervals[j].lower, tlc.intervals[j].upper, when))
+//@ ensures [error-iff-no-shard-contains-the-instant] result1 != nil ==> result0 == -1 && (forall j int :: 0 <= j && j < len(tlc.intervals) ==> !inside(tlc.intervals[j].lower, tlc.intervals[j].upper, when))
+
+//@ func shardInterval
+//@ props C18
+//@ site AsTime#1 as lo
+//@ site AsTime#2 as hi
+//@ requires cfg != nil
+//@ modifies nothing
+//@ ensures [inverted-or-empty-shard-refused] result1 == nil ==> result0.lower == nil || result0.upper == nil || instant(*result0.lower) < instant(*result0.upper)
+//@ ensures [bounds-present-iff-configured] result1 == nil ==> (result0.lower == nil) == (cfg.NotAfterStart == nil) && (result0.upper == nil) == (cfg.NotAfterLimit == nil)
+//@ ensures [bounds-are-the-configured-instants] result1 == nil ==> (result0.lower != nil ==> *result0.lower == lo.res) && (result0.upper != nil ==> *result0.upper == hi.res)
+
+//@ func NewTemporalLogClient
+//@ props C18
+//@ arith int
+//@ site shardInterval#1 as s0
+//@ site shardInterval#2 as sk
+//@ site Equal#1 as eq
+//@ requires cfg != nil
+//@ requires forall j int :: 0 <= j && j < len(cfg.Shard) ==> cfg.Shard[j] != nil
+//@ loop 1 invariant 1 <= i && i <= len(cfg.Shard) && len(intervals) == i
+//@ loop 1 invariant forall j int :: 0 <= j && j < len(cfg.Shard) ==> cfg.Shard[j] != nil
+//@ loop 2 invariant forall j int :: 0 <= j && j < len(cfg.Shard) ==> cfg.Shard[j] != nil
+//@ loop 2 invariant len(intervals) == len(cfg.Shard)
+//@ loop 2 invariant forall k int :: 0 <= k && k < len(intervals) ==> intervals[k].lower == nil || intervals[k].upper == nil || instant(*intervals[k].lower) < instant(*intervals[k].upper)
+//@ loop 2 invariant forall k int :: 1 <= k && k < len(intervals) ==> intervals[k].lower != nil && intervals[k-1].upper != nil && instant(*intervals[k].lower) == instant(*intervals[k-1].upper)
+//@ loop 1 invariant overall.upper == intervals[i-1].upper
+//@ loop 1 invariant forall k int :: 0 <= k && k < i ==> intervals[k].lower == nil || intervals[k].upper == nil || instant(*intervals[k].lower) < instant(*intervals[k].upper)
+//@ loop 1 invariant forall k int :: 1 <= k && k < i ==> intervals[k].lower != nil && intervals[k-1].upper != nil && instant(*intervals[k].lower) == instant(*intervals[k-1].upper)
+//@ ensures [empty-config-refused] len(cfg.Shard) == 0 ==> result1 != nil
+//@ ensures [any-invalid-shard-refused] (s0.called && s0.res1 != nil) ==> result1 != nil
+//@ ensures [one-interval-per-shard] result1 == nil ==> result0 != nil && len(result0.intervals) == len(cfg.Shard) && len(result0.intervals) >= 1
+//@ ensures [no-shard-is-inverted] result1 == nil ==> (forall k int :: 0 <= k && k < len(result0.intervals) ==> result0.intervals[k].lower == nil || result0.intervals[k].upper == nil || instant(*result0.intervals[k].lower) < instant(*result0.intervals[k].upper))
+//@ ensures [shards-are-contiguous-and-only-the-last-may-be-unbounded] result1 == nil ==> (forall k int :: 1 <= k && k < len(result0.intervals) ==> result0.intervals[k].lower != nil && result0.intervals[k-1].upper != nil && instant(*result0.intervals[k].lower) == instant(*result0.intervals[k-1].upper))
+//@ at eq assert [next-shard-must-start-where-the-previous-ended] eq.t == *interval.lower && eq.u == *overall.upper
+
+//@ func (*TemporalLogClient).addChain
+//@ props C18 C12
+//@ site x509.ParseCertificate#1 as pc
+//@ site IndexByDate#1 as ix
+//@ site addChainWithRetry#1 as sub
+//@ requires tlc != nil && len(tlc.Clients) == len(tlc.intervals)
+//@ requires forall j int :: 0 <= j && j < len(tlc.Clients) ==> tlc.Clients[j] != nil
+//@ ensures [empty-chain-refused] len(chain) == 0 ==> result1 != nil && !sub.called
+//@ ensures [unroutable-certificate-refused] ix.called && ix.res1 != nil ==> result1 != nil && !sub.called
+//@ ensures [result-is-the-shards-answer] sub.called ==> result0 == sub.res0 && result1 == sub.res1
+//@ at ix assert [routes-by-the-leaf-notafter] ix.when == pc.res0.NotAfter && pc.asn1Data == chain[0].Data
+//@ at sub assert [submits-to-the-shard-chosen-by-date] sub.c == tlc.Clients[ix.res0] && sub.chain == chain && sub.ctype == ctype && sub.path == path
